@@ -19,7 +19,7 @@ func init() {
 		Assumptions: []string{"ref.Descriptor is written from the doc comments of plenccodec.Descriptor and C14's statement"},
 		Work:        c14Work,
 		Post: func(a *mc.Agg) []string {
-			return needDims(a, "json:n", "json:n,omitempty", "json:,omitempty", "json:-", "universe", "named", "skipped")
+			return needDims(a, "json:n", "json:n,omitempty", "json:,omitempty", "json:-", "universe", "named", "skipped", "build-order")
 		},
 	})
 }
@@ -146,6 +146,9 @@ func c14Work(c *mc.Ctx) {
 	tT.Fields = append(tT.Fields, ref.F{Name: "S", Index: 2, T: &ref.T{K: ref.KSlice, Elem: inT}}, ref.F{Name: "M", Index: 3, T: ref.Map(L(ref.KString), inT)}, ref.F{Name: "W", Index: 4, T: L(ref.KTime)})
 	ref.RegisterNamed("gen.T", reflect.TypeOf(gen.T{}))
 	one("named", ref.Cfg{}, tT, reflect.TypeOf(gen.T{}))
+	// the Descriptor must not depend on which types the instance built before
+	bo := 1 << 20
+	buildOrder(c, &bo, "C14", descProbe)
 	// recursive family: Descriptor() must terminate (each in its own crash-attributed case)
 	for _, r := range []struct {
 		name string
